@@ -30,6 +30,8 @@ import sys
 import time
 import z3
 sys.path.insert(0, os.path.dirname(os.path.abspath(__file__)))
+# bound on the number of children / elements per node; the thorough tier of the driver raises it
+DEPTH = int(os.environ.get("MIRSYM_DEPTH", "3"))
 from mirsym import Engine, parse_mir, STD_MODELS, Unsupported, PanicFound, Ref, Opaque, is_sym
 
 EXPR_DISC = {"Expr::Unspecified": 0, "Expr::Call": 1, "Expr::Comprehension": 2, "Expr::Ident": 3, "Expr::List": 4,
@@ -175,7 +177,7 @@ def main():
         (r"^std::result::Result::<\(\), Infallible>::expect$", m_expect),
     ] + STD_MODELS
 
-    conds = [z3.Bool("cond%d" % k) for k in range(4)]
+    conds = [z3.Bool("cond%d" % k) for k in range(DEPTH + 1)]
 
     def box(h):
         hold = {0: ("operand", h)}
@@ -277,7 +279,7 @@ def main():
         stats["functions"] |= eng.stats["functions"]
 
     try:
-        for n in range(0, 4):
+        for n in range(0, DEPTH + 1):
             cases = [None, ("range",), ("init",), ("result",)] + [("cond", k) for k in range(n)] + [("step", k) for k in range(n)]
             for c in cases:
                 scenario(n, c)
